@@ -1101,9 +1101,10 @@ pub fn generate(seed: u64, pairing_heavy: bool) -> GrpSpec {
     // 0 add/sub 1 neg/dbl 2 mul 3 normalize/affine/codec/copy 4 fr ops 5 rng 6 set gen/zero
     // 7 pair 8 prepared 9 rescale
     // class 10: related-history templates (see below)
-    let mut w: [u64; 11] = [8, 3, 5, 4, 3, 1, 1, 1, 0, 0, 3];
+    // class 11: prepared-value reuse templates (pairing-heavy configuration only)
+    let mut w: [u64; 12] = [8, 3, 5, 4, 3, 1, 1, 1, 0, 0, 3, 0];
     if pairing_heavy {
-        w = [6, 2, 3, 3, 2, 1, 1, 3, 6, 3, 2];
+        w = [6, 2, 3, 3, 2, 1, 1, 3, 6, 3, 2, 3];
     }
     for (i, x) in w.iter_mut().enumerate() {
         if i != 0 && !cfg.chance(4, 5) {
@@ -1207,6 +1208,56 @@ pub fn generate(seed: u64, pairing_heavy: bool) -> GrpSpec {
                 _ => ops.push(GOp::PrepPair { slot: pr.usize_below(m), g1: a }),
             },
             9 => ops.push(GOp::Rescale { g, dst, lam: gen_lambda(&mut pr, g) }),
+            11 => {
+                // call-order templates on one prepared value: inputs related to each other (same x,
+                // same value in another representation, repeated), clones taken before the slot is
+                // overwritten, the same G1 value through two slots
+                let slot = pr.usize_below(m);
+                let slot2 = pr.usize_below(m);
+                let c = pr.usize_below(n);
+                match pr.below(6) {
+                    0 => {
+                        ops.push(GOp::PrepPair { slot, g1: a });
+                        ops.push(GOp::Neg { g: Grp::G1, dst: c, a });
+                        ops.push(GOp::PrepPair { slot, g1: c });
+                        ops.push(GOp::PrepPair { slot, g1: a });
+                    }
+                    1 => {
+                        ops.push(GOp::PrepPair { slot, g1: a });
+                        ops.push(GOp::PrepPair { slot, g1: a });
+                        ops.push(GOp::Pair { g1: a, g2: b });
+                    }
+                    2 => {
+                        ops.push(GOp::Prep { slot, g2: b });
+                        ops.push(GOp::PrepClone { slot: slot2, from: slot });
+                        ops.push(GOp::Prep { slot, g2: c });
+                        ops.push(GOp::PrepPair { slot: slot2, g1: a });
+                        ops.push(GOp::PrepPair { slot, g1: a });
+                    }
+                    3 => {
+                        ops.push(GOp::PrepPair { slot, g1: a });
+                        ops.push(GOp::Rescale { g: Grp::G1, dst: a, lam: gen_lambda(&mut pr, Grp::G1) });
+                        ops.push(GOp::PrepPair { slot, g1: a });
+                        ops.push(GOp::Normalize { g: Grp::G1, dst: a });
+                        ops.push(GOp::PrepPair { slot, g1: a });
+                    }
+                    4 => {
+                        // interleave two G1 inputs on one slot: A, B, A, B
+                        ops.push(GOp::PrepPair { slot, g1: a });
+                        ops.push(GOp::PrepPair { slot, g1: c });
+                        ops.push(GOp::PrepPair { slot, g1: a });
+                        ops.push(GOp::PrepPair { slot, g1: c });
+                    }
+                    _ => {
+                        // prepare from a rescaled / non-normalised source, then compare with the
+                        // one-shot entry points on the same registers
+                        ops.push(GOp::Rescale { g: Grp::G2, dst: b, lam: gen_lambda(&mut pr, Grp::G2) });
+                        ops.push(GOp::Prep { slot, g2: b });
+                        ops.push(GOp::PrepPair { slot, g1: a });
+                        ops.push(GOp::Pair { g1: a, g2: b });
+                    }
+                }
+            }
             _ => {
                 // related-history templates: registers whose values are related by construction
                 // (mirrored, sharing a Jacobian z, equal in two representations, opposite), so
